@@ -816,6 +816,9 @@ class Exec:
                     hy = c.range(y)[1]
                     if c.range(y)[0] >= 0 and hy < (1 << c.tzs(x)):
                         return c.add(x, y)
+                if getattr(self, 'havoc_bitops', False):
+                    # sound over-approximation for values outside the claim: an arbitrary value of the type
+                    return c.fresh('hv', 0, n - 1)
                 raise Unsupported('or of operands not provably bit-disjoint')
             if op == 'xor':
                 if isinstance(a, int) and isinstance(b, int):
@@ -987,6 +990,11 @@ class Exec:
             d = c.add(c.sub(args[0], args[1]), W)
             q, r = c.split(d, W)
             return (r, (q == 0) if not isinstance(q, int) else (q == 0))
+        if callee.startswith('llvm.ctlz.i64'):
+            a = args[0]
+            if isinstance(a, int):
+                return 64 - a.bit_length()
+            return c.fresh('clz', 0, 64)
         if callee.startswith('llvm.umax.i64') or callee.startswith('llvm.umin.i64'):
             a, b = args
             if isinstance(a, int) and isinstance(b, int):
